@@ -171,7 +171,7 @@ fn stakes_for_epochs() -> BTreeMap<TxHash, StakeDoc> {
 
 pub fn run(run: &Run) {
     let thorough = run.thorough();
-    let d1 = if thorough { 6 } else { 4 };
+    let d1 = if thorough { 6 } else { 5 };
     let d2 = if thorough { 5 } else { 4 };
     let scratch = Run::new("scratch", "quick");
     let eng = Engine::new(&scratch);
